@@ -370,6 +370,125 @@ example :
     packBufferInto 1 (exReplyOld.drop 2) (exReplyOld.drop 2) = exReplyOld.drop 2 ∧
     (packReq 1 true exReplyOld (exReplyOld.drop 1)) = none := by decide
 
+/-! ## Round 4: the control-message buffer of the UDP path -/
+
+/-- **local_address_own_control_bytes.**  After ANY history of datagrams through the pooled
+control buffer, the bytes parsed for the destination (local) address of a datagram are that
+datagram's own control data (cut to the buffer size): the address the response leaves from, and by
+which a dedicated-address profile is found, never comes from an earlier datagram. -/
+theorem local_address_own_control_bytes (oob : Bytes) (hist : List Bytes) (ctrl : Bytes) :
+    (recvOOB (runOOB oob hist) ctrl).1 = ctrl.take oob.length := by
+  simp only [recvOOB]
+  rw [take_min_overwrite, runOOB_length]
+
+/-- Parsing the whole pooled buffer instead of `oob[:oobn]` would break it: a datagram without
+control data would be attributed the control data of the previous one. -/
+theorem oob_whole_buffer_counterexample :
+    (recvOOBWhole (runOOB (zeros 4) [[1, 2, 3, 4]]) []).1 = [1, 2, 3, 4] ∧
+    (recvOOB (runOOB (zeros 4) [[1, 2, 3, 4]]) []).1 = [] := by decide
+
+/-- Non-vacuity: the pooled control buffer really holds the earlier datagram's data. -/
+example : runOOB (zeros 4) [[1, 2, 3, 4]] = [1, 2, 3, 4] ∧
+    (recvOOB (runOOB (zeros 4) [[1, 2, 3, 4]]) [9, 8]).1 = [9, 8] := by decide
+
+/-! ## Round 4: the whole forwarding chain for one client message -/
+
+/-- **chain_own_bytes.**  For every history of earlier messages on every path, whichever pooled
+buffers `sync.Pool` hands out for the client message and for the upstream exchange, every decoder /
+repacker `toReq`, every upstream `ups` and every in-place rule of `PackBuffer`: whether the client
+message is dropped, what is written to the upstream and how the upstream's reply to exactly those
+bytes is decoded is `chainSpec`, a function of the client message's own bytes and the configured
+sizes. -/
+theorem chain_own_bytes (toReq : Bytes → Option Bytes) (ups : Bytes → Bytes) (spare : Nat) (tcp : Bool)
+    (c : Cfg) (hist : List Op) (p : Path) (pickC pickU : Option Nat) (wire : Bytes) :
+    chain toReq ups spare tcp (run (Server.init c) hist) p pickC pickU wire =
+      chainSpec toReq ups tcp c p wire := by
+  have hw := wf_run _ hist (wf_init c)
+  have hcfg : (run (Server.init c) hist).cfg = c := run_cfg _ _
+  unfold chain chainSpec
+  rw [step_outcome _ _ hw, hcfg]
+  cases hs : spec p (c.size p) wire with
+  | reject w => rfl
+  | view v =>
+    simp only
+    cases ht : toReq v with
+    | none => rfl
+    | some packed =>
+      simp only
+      have hw1 := wf_step _ ⟨p, pickC, [], wire⟩ hw
+      have hc1 : (step (run (Server.init c) hist) ⟨p, pickC, [], wire⟩).1.cfg = c := by
+        rw [step_cfg, hcfg]
+      rw [hc1]
+      have hl := takeBuf_length (c.size (upsPath tcp))
+        ((step (run (Server.init c) hist) ⟨p, pickC, [], wire⟩).1.free (upsPath tcp)) pickU
+        (by intro b hb; have := hw1 (upsPath tcp) (upsPath_ne_tcp tcp) b hb; rw [hc1] at this; exact this)
+      have hm := packReq_map_sent spare tcp
+        (takeBuf (c.size (upsPath tcp))
+          ((step (run (Server.init c) hist) ⟨p, pickC, [], wire⟩).1.free (upsPath tcp)) pickU).1 packed
+      rw [hl] at hm
+      cases hr : packReq spare tcp
+        (takeBuf (c.size (upsPath tcp))
+          ((step (run (Server.init c) hist) ⟨p, pickC, [], wire⟩).1.free (upsPath tcp)) pickU).1 packed with
+      | none =>
+        rw [hr] at hm
+        by_cases hfit : packed.length + (if tcp then 2 else 0) ≤ c.size (upsPath tcp)
+        · rw [if_pos hfit] at hm; cases hm
+        · rw [if_neg hfit]
+      | some r =>
+        rw [hr] at hm
+        by_cases hfit : packed.length + (if tcp then 2 else 0) ≤ c.size (upsPath tcp)
+        · rw [if_pos hfit] at hm ⊢
+          simp only [Option.map_some] at hm
+          injection hm with hm
+          have hlen := packReq_length spare tcp _ packed r hr
+          rw [hl] at hlen
+          simp only
+          rw [recvOn_fst, hlen, hm]
+        · rw [if_neg hfit] at hm; cases hm
+
+/-- **chain_history_unobservable.**  The warmed server and a freshly started one (empty pools) do
+the same with the client message, end to end. -/
+theorem chain_history_unobservable (toReq : Bytes → Option Bytes) (ups : Bytes → Bytes) (s₁ s₂ : Nat)
+    (tcp : Bool) (c : Cfg) (hist : List Op) (p : Path) (pickC pickU : Option Nat) (wire : Bytes) :
+    chain toReq ups s₁ tcp (run (Server.init c) hist) p pickC pickU wire =
+      chain toReq ups s₂ tcp (Server.init c) p none none wire := by
+  rw [chain_own_bytes]
+  exact (chain_own_bytes toReq ups s₂ tcp c [] p none none wire).symm
+
+/-- **chain_sent_is_own_request / chain_reply_view_is_reply_bytes.**  Whenever the chain reaches
+the upstream, the bytes written are the framed request derived from the client's own slice, and a
+decoded reply is a contiguous piece of the upstream's reply to exactly those bytes. -/
+theorem chain_sent_is_own_request (toReq : Bytes → Option Bytes) (ups : Bytes → Bytes) (tcp : Bool)
+    (c : Cfg) (p : Path) (wire sent : Bytes) (o : Outcome)
+    (h : chainSpec toReq ups tcp c p wire = .exchanged sent o) :
+    ∃ v packed, spec p (c.size p) wire = .view v ∧ toReq v = some packed ∧ sent = frameReq tcp packed ∧
+      o = spec (upsPath tcp) (c.size (upsPath tcp)) (ups sent) := by
+  unfold chainSpec at h
+  cases hs : spec p (c.size p) wire with
+  | reject w => rw [hs] at h; cases h
+  | view v =>
+    rw [hs] at h
+    simp only at h
+    cases ht : toReq v with
+    | none => rw [ht] at h; cases h
+    | some packed =>
+      rw [ht] at h
+      simp only at h
+      by_cases hfit : packed.length + (if tcp then 2 else 0) ≤ c.size (upsPath tcp)
+      · rw [if_pos hfit] at h
+        injection h with h1 h2
+        exact ⟨v, packed, rfl, ht, h1.symm, by rw [← h2, ← h1]⟩
+      · rw [if_neg hfit] at h; cases h
+
+/-- Non-vacuity: a history that leaves another client's reply in the upstream buffer, then a
+client message over DoQ whose upstream reply declares a record it does not carry: end to end the
+chain sends the client's own request and decodes the short reply from its own bytes. -/
+example :
+    chain (fun v => some v) (fun _ => exReplyShort) 1 false
+      (run (Server.init exCfg) [⟨.upsUdp, none, [], exReplyOld⟩, ⟨.doq, none, [], exPrev⟩])
+      .doq (some 0) (some 0) exNext
+      = .exchanged [0, 0, 1, 0, 0, 1, 0, 0, 0, 0, 0, 0] (.view exReplyShort) := by decide
+
 #print axioms decode_own_bytes
 #print axioms history_unobservable
 #print axioms histories_indistinguishable
@@ -394,6 +513,11 @@ example :
 #print axioms packreq_old_counterexample
 #print axioms packreq_old_leaks_residue
 #print axioms retry_old_counterexample
+#print axioms local_address_own_control_bytes
+#print axioms oob_whole_buffer_counterexample
+#print axioms chain_own_bytes
+#print axioms chain_history_unobservable
+#print axioms chain_sent_is_own_request
 
 end Agd.Buffers
 #print axioms Agd.Tie.TrC06.translation_complete
@@ -412,4 +536,3 @@ end Agd.Buffers
 #print axioms Agd.Tie.TrC06.packReq_never_panics
 #print axioms Agd.Tie.TrC06.packReq_success
 #print axioms Agd.Tie.TrC06.packReq_failure
-#print axioms Agd.Tie.TrC06.toI_length
